@@ -64,6 +64,11 @@ def generate(rng, seed, index, tier):
                 wdt = str(rng.choice(["int8", "int16", "int32"]))
                 wmax = int(rng.choice([8, 45, 100 if wdt == "int8" else 45]))
             kw["scaling"] = {"var": rng.integers(-wmax, wmax + 1, size=spec["n"]).tolist(), "cons": rng.integers(-wmax, wmax + 1, size=spec["m"]).tolist(), "obj": int(rng.integers(-wmax, wmax + 1)), "dtype": wdt}
+            if rng.random() < 0.12:
+                # objective-only scaling: every variable / row exponent is zero
+                kw["scaling"]["var"] = [0] * spec["n"]
+                kw["scaling"]["cons"] = [0] * spec["m"]
+                kw["scaling"]["obj"] = int(rng.choice([-6, -3, -1, 1, 2, 5]))
         else:
             kw["scaling_primal"] = "x0"
             kw["scaling_dual"] = "y0"
